@@ -205,6 +205,36 @@ type Recorder struct {
 	// optional hook run at every event (e.g. runtime.GC)
 	Hook func()
 	n    int
+	// strings received BY VALUE are kept (a visitor may keep them: Go strings are immutable) and compared
+	// with what was recorded at the callback once the call under test has returned
+	held []heldStr
+}
+
+type heldStr struct {
+	idx int
+	s   string
+}
+
+// Mutated counts the by-value strings whose bytes are no longer the ones recorded when they were delivered.
+func (r *Recorder) Mutated() int {
+	n := 0
+	for _, h := range r.held {
+		if h.idx >= len(r.Events) {
+			continue
+		}
+		v := r.Events[h.idx].V
+		if len(v) != len(h.s) {
+			n++
+			continue
+		}
+		for i := 0; i < len(h.s); i++ {
+			if int(h.s[i]) != v[i] {
+				n++
+				break
+			}
+		}
+	}
+	return n
 }
 
 func (r *Recorder) add(e Event) error {
@@ -227,6 +257,7 @@ func (r *Recorder) add(e Event) error {
 func (r *Recorder) OnNil() error        { return r.add(newEv("nil", "nil", nil)) }
 func (r *Recorder) OnBool(b bool) error { return r.add(newEv("bool", "bool", boolV(b))) }
 func (r *Recorder) OnString(s string) error {
+	r.held = append(r.held, heldStr{len(r.Events), s})
 	e := newEv("str", "str", strToInts(s))
 	if r.Region != nil {
 		e.Reg = r.Region(nil, s, false)
@@ -234,6 +265,7 @@ func (r *Recorder) OnString(s string) error {
 	return r.add(e)
 }
 func (r *Recorder) OnKey(s string) error {
+	r.held = append(r.held, heldStr{len(r.Events), s})
 	e := newEv("key", "key", strToInts(s))
 	if r.Region != nil {
 		e.Reg = r.Region(nil, s, false)
